@@ -76,6 +76,9 @@ class RefRewriter(ast.NodeTransformer):
         return node
 
 
+_SOFT = set()
+
+
 def excluded(src, tree):
     """Inputs outside the property's claim."""
     try:
@@ -84,7 +87,12 @@ def excluded(src, tree):
                 return "uses a reserved word as identifier"
     except Exception:
         return "tokenize failed"
+    soft = _SOFT or _SOFT.update(scenic_keywords()[1]) or _SOFT
     for n in ast.walk(tree):
+        if isinstance(n, ast.Name) and n.id in ("str", "int", "float") and not isinstance(n.ctx, ast.Load):
+            return "assigns to str/int/float (documented as not reassignable)"
+        if isinstance(n, ast.Expr) and isinstance(n.value, ast.Name) and n.value.id in soft:
+            return "a bare soft keyword as a whole statement (documented context-dependent meaning)"
         if isinstance(n, ast.ClassDef):
             for st in n.body:
                 if isinstance(st, ast.AnnAssign) or (isinstance(st, ast.Expr) and False):
@@ -195,7 +203,8 @@ STATEMENTS = [
     "match cmd:\n    case [a, b]:\n        pass\n    case _:\n        pass", "type_ = type(x)", "res = left < mid <= right",
     "q = a.left + b.right - c.front.top", "w = [heading, position, offset, distance, angle, facing, visible]",
     "def behavior(scenario, monitor, param): return scenario.model", "steps = seconds * 10", "e = not visible",
-    "msg = f'{name!r} has {count:>4} items, {ratio!s:.3}'", "dbg = f'{value=} {other = !r}'",
+    "pick = a if p else b if q else c", "fn = g if flag else lambda: 0", "class Reg:\n    table = {}\n    table[int] = 1\n    table['k'], other = 2, 3",
+    "text = f'line\\n\\t{v}\\x41'", "msg = f'{name!r} has {count:>4} items, {ratio!s:.3}'", "dbg = f'{value=} {other = !r}'",
 ]
 
 
